@@ -17,7 +17,7 @@ Definition targets (g : graph) (o : op) (x : N) : Prop :=
   | OUnpeer6 a b => exists xy, In xy (unpeer_pairs g a b) /\ (x = fst xy \/ x = snd xy)
   | ORemoveInterface s nm => In x (cpn g s) /\ name_of g x = nm
   | ORemoveChild p nm => In x (cpn g p) /\ name_of g x = nm
-  | OPrune | OPrune7 | OPrune8 => False
+  | OPrune | OPrune7 | OPrune8 | OPrune9 => False
   end.
 
 Section Top.
@@ -303,6 +303,7 @@ Proof.
     assert (Hxc : In x (child_by_name g (first_neighbor g p RConnects CCP) iname)).
     { unfold child_by_name. apply filter_In. split; [exact Hx1 | apply N.eqb_eq; exact Hx2]. }
     rewrite Hi in Hxc. destruct Hxc as [<-|[]]. apply (del_remove_cp g i false _ _ C1 E1).
+  - destruct Hx.
   - destruct Hx.
   - destruct Hx.
   - destruct Hx.
